@@ -393,6 +393,32 @@ func genC11(seed uint64, part string) *Scenario {
 		sc.Clients = [][]Op{a, b, c}
 		return sc
 	}
+	if r.Chance(1, 8) && part != "" {
+		// bars of unknown total completed while still empty (an empty input), then
+		// touched again while another bar keeps the container from refreshing early:
+		// SetTotal, updates and Abort must leave them completed
+		sc.Mode = "auto"
+		sc.RefreshUS = r.Pick(2000, 10000)
+		sc.End = "natural"
+		sc.Trig = nil
+		anchor := simpleBar(100)
+		anchor.Filler = "nop"
+		sc.Bars = append(sc.Bars, anchor)
+		nb := r.Range(1, 4)
+		var a, c []Op
+		for i := 1; i <= nb; i++ {
+			bar := simpleBar(int64(r.Pick(0, -1)))
+			bar.Filler = "nop"
+			bar.Finish = "settotal"
+			sc.Bars = append(sc.Bars, bar)
+			a = append(a, Op{K: "settotal", B: i, N: -1, F: true}, Op{K: "compl", B: i},
+				Op{K: "settotal", B: i, N: int64(r.Pick(5, 10, 0)), F: false}, Op{K: "compl", B: i},
+				Op{K: "incr", B: i, N: int64(r.Pick(0, 1))}, Op{K: "abort", B: i, F: r.Bool()}, Op{K: "compl", B: i}, Op{K: "abrt", B: i})
+			c = append(c, Op{K: "compl", B: i}, Op{K: "abrt", B: i}, Op{K: "get", B: i})
+		}
+		sc.Clients = [][]Op{a, c}
+		return sc
+	}
 	n := r.Range(1, 4)
 	for i := 0; i < n; i++ {
 		total := int64(r.Pick(0, -1, 1, 3, 10))
